@@ -110,6 +110,20 @@ def family_unate():
     return out
 
 
+def family_check_explanation():
+    """a conflict found by the simplex check() on a row in which a variable has a NEGATIVE coefficient after a pivot, with an unrelated bound of the
+    same slack asserted earlier: s = x - y; E: s <= 6, A: x <= 0, D: s >= 1 (pivot: y = x - s), B: y >= 0 -> the explanation must name A, D, B (the LOWER
+    bound of s), not E; mirrored for the upper-bound branch; both with the decisions in two orders"""
+    out = []
+    E, A_, D, B = (1, 1, -1, 6, 1), (1, 1, 0, 0, 1), (3, 1, -1, 1, 1), (3, 0, 1, 0, 1)
+    out.append(([E, A_, D, B], [(A, 0, 1), (A, 1, 1), (A, 2, 1), (A, 3, 1)]))
+    out.append(([E, A_, D, B], [(A, 0, 1), (A, 2, 1), (A, 3, 1), (A, 1, 1)]))
+    E, A_, D, B = (3, 1, -1, -6, 1), (3, 1, 0, 0, 1), (1, 1, -1, -1, 1), (1, 0, 1, 0, 1)
+    out.append(([E, A_, D, B], [(A, 0, 1), (A, 1, 1), (A, 2, 1), (A, 3, 1)]))
+    out.append(([E, A_, D, B], [(A, 0, 1), (A, 2, 1), (A, 3, 1), (A, 1, 1)]))
+    return out
+
+
 def sample(rng, n, maxr, maxh):
     out = []
     for _ in range(n):
@@ -152,6 +166,7 @@ def jobs(tier):
     scs += fb[::2] if tier == 'quick' else fb
     scs += family_implied_conflict()
     scs += family_unate()
+    scs += family_check_explanation()
     if tier == 'quick':
         scs += sample(rng, 40, 3, 4)
         k = 1
